@@ -51,6 +51,9 @@ func VerifC19MigrationStrict(n, k int) {
 		verifAssume(raw[i] < 0x80)
 	}
 	t := string(raw)
+	if !verifSymbolic() && n == 81 {
+		verifAliasBank(raw)
+	}
 	var addr [Ed25519AddressSize]byte
 	var err error
 	panicked := verifPanics(func() { addr, err = Decode(t) })
@@ -71,6 +74,56 @@ func VerifC19MigrationStrict(n, k int) {
 	if len(re) == n {
 		for i := 0; i < n; i++ {
 			verifAssert("accepted.reencodes", re[i] == t[i])
+		}
+	}
+}
+
+// verifAliasBank (native replays only; BLAKE2b is uninterpreted in the symbolic run, so a counterexample
+// that needs a matching checksum is rebuilt with the real one): the address spelled by the model's
+// trytes (read leniently, byte = group value mod 256) is encoded properly; then every group of address and
+// checksum is re-spelled in every other way that has the same value mod 256 (the only way to hit the same
+// byte) — each such string is one the encoder cannot produce and must be refused.
+func verifAliasBank(raw []byte) {
+	tv := func(c byte) int {
+		switch {
+		case c == '9':
+			return 0
+		case c >= 'A' && c <= 'M':
+			return int(c-'A') + 1
+		case c >= 'N' && c <= 'Z':
+			return int(c-'N') - 13
+		}
+		return 0
+	}
+	tc := func(v int) byte {
+		switch {
+		case v == 0:
+			return '9'
+		case v > 0:
+			return byte('A' + v - 1)
+		}
+		return byte('N' + v + 13)
+	}
+	var addr [Ed25519AddressSize]byte
+	for i := range addr {
+		addr[i] = byte(tv(raw[8+2*i]) + 27*tv(raw[9+2*i]))
+	}
+	good := []byte(Encode(addr))
+	back, err := Decode(string(good))
+	verifAssert("bank.valid.accepted", err == nil && back == addr)
+	for g := 0; g < 36; g++ {
+		v := tv(good[8+2*g]) + 27*tv(good[9+2*g])
+		for _, alt := range []int{v + 256, v - 256, v + 512, v - 512} {
+			if alt < -364 || alt > 364 {
+				continue
+			}
+			// balanced split alt = t1 + 27*t2 with t1, t2 in [-13, 13]
+			t2 := (alt + 13 + 27*14) / 27 - 14
+			t1 := alt - 27*t2
+			w := append([]byte{}, good...)
+			w[8+2*g], w[9+2*g] = tc(t1), tc(t2)
+			_, err := Decode(string(w))
+			verifAssert("bank.alias.spelling.rejected", err != nil)
 		}
 	}
 }
